@@ -102,7 +102,7 @@ def run_job(cpath, job, outdir, tier='quick'):
         final = gb2
     solver = job.get('solver', 'cadical')
     cmd = ['cbmc', final, '--bounds-check', '--pointer-check', '--undefined-shift-check', '--div-by-zero-check',
-           '--object-bits', job.get('objbits', '8'), '--json-ui', '--verbosity', '6', '--no-malloc-may-fail']
+           '--object-bits', job.get('objbits', '8'), '--json-ui', '--verbosity', '6', '--no-malloc-may-fail', '--drop-unused-functions']
     if job.get('convcheck', '1') != '0': cmd += ['--conversion-check']
     if job.get('unwind'): cmd += ['--unwind', job['unwind'], '--unwinding-assertions']
     if solver == 'kissat': cmd += ['--external-sat-solver', 'kissat']
@@ -132,7 +132,8 @@ def run_job(cpath, job, outdir, tier='quick'):
         loc = r.get('sourceLocation', {})
         rec = {'name': r.get('property'), 'desc': desc, 'status': st, 'line': loc.get('line'), 'function': loc.get('function')}
         if PROBE in desc:
-            probes.append(rec); continue
+            if rec['function'] == entry: probes.append(rec)
+            continue
         if st == 'FAILURE':
             rec['trace'] = summarize_trace(r.get('trace', []))
             failed.append(rec)
